@@ -134,6 +134,18 @@ where
     if it.next().is_some() && it.len() != n - 1 {
         return Some(format!("len() after one next() = {} for {n} items", it.len()));
     }
+    // last() of a partly / wholly consumed iterator
+    let mut it = make();
+    let first = it.next();
+    let want = if n >= 2 { all.last() } else { None };
+    if first.is_some() && it.last().as_ref() != want {
+        return Some(format!("last() after one next() on {n} items differs from the collected last item"));
+    }
+    let mut it = make();
+    while it.next().is_some() {}
+    if it.last().is_some() {
+        return Some(format!("last() of an exhausted iterator over {n} items is Some"));
+    }
     // driven past the end: nothing left, and it says so
     for k in [n, n + 2] {
         let mut it = make();
